@@ -274,6 +274,21 @@ Proof.
 Qed.
 
 (* ------------------------------------------------------------------------------------------------
+   6b. what the boolean structure checks of the correspondence (Corr/C01Corr.v) establish about one run of the
+       implementation: the sample list is duplicate-free, inside the product space, contains every joint map of
+       probability >= hi and none below lo; every coefficient is the product of the chosen coefficients within tol*kappa *)
+Theorem c01_checker_sound : forall C lo hi tol (samples : list (jkey * Q)),
+  support_ok C lo hi (map fst samples) = true -> coeffs_ok C tol samples = true ->
+  NoDup (map fst samples) /\ incl (map fst samples) (all_maps (map (@length Q) C)) /\
+  (forall ids, In ids (map fst samples) -> (lo <= map_prob C ids)%Q) /\
+  (forall ids, In ids (all_maps (map (@length Q) C)) -> ~ In ids (map fst samples) -> (map_prob C ids < hi)%Q) /\
+  (forall s, In s samples -> (Qabs (snd s - coeff_prod C (fst s)) <= tol * kappa_all C)%Q).
+Proof.
+  intros C lo hi tol samples H1 H2. destruct (support_ok_sound C lo hi _ H1) as (A & B & D & F).
+  repeat (split; [assumption|]). now apply coeffs_ok_sound.
+Qed.
+
+(* ------------------------------------------------------------------------------------------------
    7. NON-VACUITY: a concrete problem on which every hypothesis of c01_roundtrip holds and everything is computed
       exactly inside Coq.   Circuit  h 0 ; cx 0 1  on two qubits, partitions A = {qubit 0} | B = {qubit 1}, the cx is
       cut with the REAL basis of Model/Bases.v (six maps, coefficients +-1/2), observables ZZ, XX, IZ.
@@ -467,6 +482,7 @@ Print Assumptions c01_subcutoff.
 Print Assumptions c01_weights_from_c04.
 Print Assumptions c01_idle_refusal.
 Print Assumptions c01_idle_rule.
+Print Assumptions c01_checker_sound.
 Print Assumptions c01_hyps_satisfiable.
 Print Assumptions c01_ex_roundtrip.
 
